@@ -1106,3 +1106,46 @@ package regexp2
 //@   loop 2:
 //@     invariant RunnerText(r) && r.Runtextpos == old(r.Runtextpos) && r.Runtextpos <= candidate && candidate <= len(r.Runtext) && r.Runtextpos <= searchStart && searchStart <= first.CoreStart && first.CoreStart < r.Runtextend && chain != nil && chain.LeadingLoopSet != nil && len(chain.Landmarks) > 0
 //@     decreases candidate
+
+// ---- fixed-distance sets ----
+//@ spec func FDSetOK(s syntax.FixedDistanceSet) bool = (s.Set != nil ==> syntax.SetOK(s.Set))
+//@ spec func FDSetHas(s syntax.FixedDistanceSet, ch rune) bool = ite(len(s.Chars) > 0, helpers.InRunes(s.Chars, ch) != s.Negated,
+//@     ite(s.Range != nil, (s.Range.First <= ch && ch <= s.Range.Last) != s.Negated, s.Set != nil && syntax.MemberP(s.Set, ch)))
+//@ func charInFixedDistanceSet(set syntax.FixedDistanceSet, ch rune) (b bool)
+//@   props C03 C16
+//@   requires FDSetOK(set)
+//@   ensures b == FDSetHas(set, ch)
+
+//@ func indexOfSet(chars []rune, set syntax.FixedDistanceSet) (r int)
+//@   trusted three of its four branches are direct calls of verified helpers; the fourth passes a closure to helpers.IndexFunc (function-valued arguments with captured variables are outside the modelled subset)
+//@   pure
+//@   requires FDSetOK(set)
+//@   ensures -1 <= r && r < len(chars)
+//@   ensures r >= 0 ==> FDSetHas(set, chars[r])
+//@   ensures forall p int {chars[p]} :: 0 <= p && p < len(chars) && (r < 0 || p < r) ==> !FDSetHas(set, chars[p])
+
+//@ spec func SameFDSet(a syntax.FixedDistanceSet, b syntax.FixedDistanceSet) bool = a.Set == b.Set && a.Chars == b.Chars && a.Negated == b.Negated && a.Range == b.Range && a.Distance == b.Distance
+// every set of the list has a member at its distance from start
+//@ spec func FDSetsAt(r *Runner, sets []syntax.FixedDistanceSet, start int) bool = forall k int :: 0 <= k && k < len(sets) ==> 0 <= start + sets[k].Distance && start + sets[k].Distance < r.Runtextend && FDSetHas(sets[k], r.Runtext[start + sets[k].Distance])
+//@ func fixedDistanceSetsMatchAt(r *Runner, sets []syntax.FixedDistanceSet, start int) (b bool)
+//@   props C03 C10
+//@   requires RunnerText(r) && forall k int :: 0 <= k && k < len(sets) ==> FDSetOK(sets[k])
+//@   ensures b == FDSetsAt(r, sets, start)
+//@   loop 0:
+//@     invariant -1 <= rangeindex && rangeindex < len(sets)
+//@     invariant[bounds] forall k int :: 0 <= k && k <= rangeindex ==> 0 <= start + sets[k].Distance && start + sets[k].Distance < r.Runtextend
+//@     invariant[has] forall k int :: 0 <= k && k <= rangeindex ==> FDSetHas(sets[k], r.Runtext[start + sets[k].Distance])
+//@     decreases len(sets) - rangeindex
+
+//@ func findFixedDistanceSetsLeftToRight(r *Runner, sets []syntax.FixedDistanceSet) (b bool)
+//@   props C03 C10
+//@   requires RunnerText(r) && (forall k int :: 0 <= k && k < len(sets) ==> FDSetOK(sets[k])) && (len(sets) > 0 ==> 0 <= sets[0].Distance)
+//@   modifies r.Runtextpos
+//@   ensures[none]  (len(sets) == 0 || sets[0].Set == nil) ==> !b && r.Runtextpos == old(r.Runtextpos)
+//@   ensures[hit]   b ==> old(r.Runtextpos) <= r.Runtextpos && r.Runtextpos <= Latest(r) && FDSetsAt(r, sets, r.Runtextpos)
+//@   ensures[first] b ==> forall p int :: old(r.Runtextpos) <= p && p < r.Runtextpos && p <= Latest(r) ==> !FDSetsAt(r, sets, p)
+//@   ensures[miss]  !b && len(sets) > 0 && sets[0].Set != nil ==> r.Runtextpos == r.Runtextend && forall p int :: old(r.Runtextpos) <= p && p <= Latest(r) ==> !FDSetsAt(r, sets, p)
+//@   loop 0:
+//@     invariant RunnerText(r) && r.Runtextpos == old(r.Runtextpos) && len(sets) > 0 && SameFDSet(primary, sets[0]) && r.Runtextpos + primary.Distance <= searchStart
+//@     invariant forall c int {r.Runtext[c]} :: old(r.Runtextpos) + primary.Distance <= c && c < searchStart && c - primary.Distance <= Latest(r) ==> !FDSetsAt(r, sets, c - primary.Distance)
+//@     decreases len(r.Runtext) - searchStart
